@@ -59,6 +59,11 @@ func MultiPoint(mp orb.MultiPoint, z maptile.Zoom) maptile.Set {
 // Bound creates a tile cover for the bound. i.e. all the tiles
 // that intersect the bound.
 func Bound(b orb.Bound, z maptile.Zoom) maptile.Set {
+	if b.IsEmpty() {
+		// nothing to cover, and the tile range below would be inverted.
+		return make(maptile.Set)
+	}
+
 	lo := maptile.At(b.Min, z)
 	hi := maptile.At(b.Max, z)
 
